@@ -51,7 +51,9 @@ pub const ORIG_METHODS: &[&str] = &[
 ];
 pub const ARGS: &[&str] = &["", "int", "java.lang.String", "int,long", "a.b", "android.view.View", "int[]", "z", "b", "b\u{0}c", "c", "\u{0}"];
 pub const TYPES: &[&str] = &["void", "int", "java.lang.String", "a.b[]", "o.A", "boolean", "é.T"];
-pub const FILES: &[&str] = &["Foo.kt", "Bar.java", "R8$$SyntheticClass", "SourceFile", "Ünï.kt", "x", "C:\\src\\Foo.kt", "a\\", "\\", "R8$$SyntheticClass", "{}", "a:b"];
+pub const FILES: &[&str] = &["Foo.kt", "Bar.java", "R8$$SyntheticClass", "SourceFile", "Ünï.kt", "x", "C:\\src\\Foo.kt", "a\\", "\\", "R8$$SyntheticClass", "{}", "a:b",
+    // white space inside / around a quoted file name is part of the name
+    " Outer Impl.kt", "R8$$SyntheticClass ", " R8$$SyntheticClass", "\tx ", " ", "Main(1).java"];
 
 /// a name whose LEB128 length prefix needs 3 bytes (> 16383 bytes)
 pub fn huge_name(rng: &mut Rng) -> String {
@@ -273,6 +275,16 @@ pub fn gen_mapping(rng: &mut Rng, cfg: &Cfg) -> GenMapping {
             lines.push("# min_api: 15".into());
         }
     }
+    if rng.pct(3) {
+        // 45..70 records before the first member line (comments, headers, member-less classes)
+        for i in 0..rng.range(45, 70) {
+            match rng.below(3) {
+                0 => lines.push(format!("# comment {}", i)),
+                1 => lines.push(format!("o.Kept{} -> o.Kept{}:", i, i)),
+                _ => lines.push("# {\"id\":\"com.android.tools.r8.mapping\",\"version\":\"2.2\"}".to_string()),
+            }
+        }
+    }
     if rng.pct(8) {
         lines.push(source_file_line(rng, cfg)); // before the first class
     }
@@ -373,7 +385,13 @@ pub fn gen_mapping(rng: &mut Rng, cfg: &Cfg) -> GenMapping {
             };
             // inline group: several entries with the same obfuscated range
             let group = if range.is_some() && rng.pct(35) { rng.range(2, 4) } else { 1 };
-            for _ in 0..group {
+            for gi in 0..group {
+                if gi > 0 && rng.pct(6) {
+                    // something between two entries of one obfuscated range: only a *method* entry
+                    // with the identical range right after an entry marks it as an inlined callee
+                    lines.push(rng.pick(&["# {\"id\":\"com.android.tools.r8.synthesized\"}", "# {\"id\":\"com.android.tools.r8.residualsignature\",\"signature\":\"()V\"}",
+                        "# comment", "    int between -> fld", "noise", "#"]).to_string());
+                }
                 lines.push(member_line(rng, cfg, range, obf_m));
                 i += 1;
             }
